@@ -77,6 +77,7 @@ func runProperty(def *propertyDef, tier, repo, root, only, replay, tags string) 
 	if replay != "" {
 		r.extra["replay_of"] = replay
 	}
+	fullSSABodies = tier == "thorough"
 	prog, err := Load(repo, tags)
 	if err != nil {
 		fmt.Printf("%s.LOAD cannot analyse %s: %v\n", def.id, repo, err)
